@@ -5,7 +5,7 @@ from typing import Any, Callable
 
 from spec_classes.types import MISSING
 from spec_classes.utils.method_builder import MethodBuilder
-from spec_classes.utils.mutation import mutate_value
+from spec_classes.utils.mutation import delattr_mutate_safe, mutate_value
 from spec_classes.utils.type_checking import type_label
 
 from .base import MethodDescriptor
@@ -168,7 +168,7 @@ class ResetMethod(MethodDescriptor):
 
         for attr in self.__spec_class__.attrs:
             try:
-                delattr(self, attr)
+                delattr_mutate_safe(self, attr, inplace=_inplace)
             except AttributeError:
                 pass
 
